@@ -295,5 +295,5 @@ MUTANTS = [
     Mutant("mirror-broken", UO, "_get_conversion_factor", "                new_baseoffset /= new_basevalue", "                new_baseoffset *= new_basevalue", ("C03-R3",)),
     Mutant("em-one-sided", UO, None, '("G", dims.magnetic_field_cgs): (dims.magnetic_field_mks, "T", 1.0e-4)', '("G", dims.magnetic_field_cgs): (dims.magnetic_field_mks, "T", 1.0e-3)', ("C03-R4",)),
     Mutant("em-two-sided-slip", UO, None, "0.1 * speed_of_light_cm_per_s),\n    (\"statC\"", "0.01 * speed_of_light_cm_per_s),\n    (\"statC\"", ("C03-R4",)),
-    Mutant("twin-rename", ARR, "unyt_array.in_base", "conv", "factor", (), count=5, benign=True),
+    Mutant("twin-keyword-form", ARR, "unyt_array.in_cgs", 'return self.in_base("cgs")', 'return self.in_base(unit_system="cgs")', (), benign=True),
 ]
